@@ -19,6 +19,13 @@ pub struct Al1 {
     leaf: Leaf,
 }
 
+/// sorts after `Al` by identifier but before `Al<T>` by declaration text; needs no imports
+#[derive(TS)]
+#[ts(export_to = "shared.ts")]
+pub struct Al2 {
+    a: i32,
+}
+
 #[derive(TS)]
 #[ts(export_to = "shared.ts")]
 pub struct Al<T> {
@@ -206,6 +213,7 @@ pub fn entries() -> Vec<Entry> {
     vec![
         entry!("Alpha", Alpha),
         entry!("Al1", Al1),
+        entry!("Al2", Al2),
         entry!("Al<i32>", Al<i32>),
         entry!("Al<Leaf>", Al<Leaf>),
         entry!("AlphaBeta", AlphaBeta),
